@@ -104,12 +104,13 @@ RULES = {
     "R45": _get(DT, "r45_no_detached_dependence"),
     "R40c": _get(BR, "r40_alignment_only"),
     "R47": _get(DT, "r47_no_operand_alias"),
+    "R51": _get(DT, "r51_no_flat_broadcast_in_derivatives"),
 }
 
 # property -> rules (DESIGN.md section 4)
 PROPERTY_RULES = {
-    "C01": ["R9", "R8", "R5", "R27", "R6", "R24", "R11", "R25", "R23", "R26", "R45", "R10", "R33", "R12", "R13", "R15", "R29", "R31", "R32", "R39"],
-    "C02": ["R12", "R13", "R15", "R9", "R33", "R29", "R31", "R30", "R32", "R39", "R11", "R45"],
+    "C01": ["R9", "R8", "R5", "R27", "R6", "R24", "R11", "R25", "R23", "R26", "R45", "R10", "R33", "R12", "R13", "R15", "R29", "R31", "R32", "R39", "R51"],
+    "C02": ["R12", "R13", "R15", "R9", "R33", "R29", "R31", "R30", "R32", "R39", "R11", "R45", "R51"],
     "C03": ["R11", "R21"],
     "C04": ["R40", "R41"],
     "C05": ["R36", "R38", "R40c", "R41", "R49"],
